@@ -72,7 +72,7 @@ def gen_case(rng):
                         labels[lab] = rng.choice(vals)
                 if rng.random() < 0.08:
                     # labels are arbitrary: also names that look internal
-                    labels[rng.choice(['_result', '_test_name', 'index',
+                    labels[rng.choice(['_result', '_test_name', 'KO',
                                        'OK', 'total'])] = rng.choice(
                                            ['0', '1', 'x'])
                 name = rng.choice([f't{i}_{j}', 'same', f'n{j}'])
